@@ -154,3 +154,26 @@ Print Assumptions C06_mixed_chunked_partial.
    (repaired finding F38: it used to report the body as truncated) *)
 Theorem C06_fixed_read0_ok : forall r, body_read 0 (BFixed r) = ROk [] (BFixed r).
 Proof. exact fixed_read0_ok. Qed.
+
+(* --- the client's CHOICE of decoder, for arbitrary responses (Spec/ResponseFraming.v: the decision over the raw field list of
+   the accepted head, independent of the model's from_response; Proofs/ClientFraming.v).  For every response the parser
+   accepts, every split of the bytes behind the head between buffer and stream segments, and every long enough sequence of
+   positive read sizes: chunked -> the spec_decode payload, or a failure when the encoding is invalid; a declared length -> exactly
+   that many bytes, or a failure when fewer arrive; neither -> everything up to the end of the stream. *)
+From KV Require Import Model.Parser Model.Client Spec.HttpGrammar Spec.StatusGrammar Spec.ClSpec Spec.ResponseFraming Proofs.ClientRoundBase Proofs.ClientFraming.
+
+Theorem C06_client_framing : forall wire r k stream sizes,
+  parse_response wire = Ok r ->
+  r_offset r <= k -> concat stream = skipn k wire ->
+  positive_sizes sizes -> length (skipn (r_offset r) wire) < length sizes ->
+  let raw := resp_raw_fields wire in
+  let rest := skipn (r_offset r) wire in
+  (exists sh, strict_status_head wire = Some (sh, r_offset r) /\
+     r_version r = (if ss_minor sh then 1 else 0)%N /\ r_code r = ss_code sh /\ r_reason r = ss_reason sh) /\
+  r_hdrs r = headers_of raw /\
+  cl_consistent_rfc raw = true /\
+  framing_clauses raw rest
+    (fun p => client_receive_from (firstn k wire) stream sizes = Some (r_code r, r_reason r, r_hdrs r, p))
+    (client_fails (firstn k wire) stream sizes).
+Proof. exact client_framing. Qed.
+Print Assumptions C06_client_framing.
